@@ -418,40 +418,10 @@ ZIP_TABLE = {
 }
 
 
-def r5_names_and_zips(ctx):
-    """Every parameter gets a dimension name and duplicates are replaced by '<model>.<argument>'; every zip(...) on the observation path pairs sequences that are equal-length by construction (reviewed table), and the dask length check dominates its zip."""
-    f = ctx.func(f"{O}:_get_short_dimension_names_new")
+def dim_names_order(ctx, f):
+    """The mapping returned by _get_short_dimension_names_new lists every parameter once, in the
+    declaration order of `types` (the dask path pairs its keys positionally with the value tuple)."""
     tp = f.params[0]
-    dd = local_defs(f, "duplicate_dim_names")
-    ok = False
-    if len(dd) == 1 and isinstance(dd[0][1], ast.ListComp):
-        lc = dd[0][1]
-        ifs = [norm(i) for i in lc.generators[0].ifs]
-        src = norm(expand(f, lc.generators[0].iter))
-        ok = len(ifs) == 1 and ifs[0].endswith("> 1") and "Counter(" in src and "potential_dim_names.values()" in src
-    ctx.check(ok, f.qual + "#duplicates", "duplicates = names used more than once" if ok else "duplicate detection changed", where=f, node=dd[0][0] if dd else f.node)
-    # replacement of colliding names: _get_short_name_with_model(<key>) under a membership test in the duplicates
-    repl_calls = [c for c in calls_in(f.node) if call_name(c) == "_get_short_name_with_model"]
-    ok = False
-    for c in repl_calls:
-        ts = enclosing_tests(c)
-        guarded = any(pol and isinstance(t, ast.Compare) and isinstance(t.ops[0], ast.In) and norm(t.comparators[0]) == "duplicate_dim_names" for t, pol in ts)
-        lp_ = enclosing_loop(c)
-        keyvar = None
-        from sa.index import ancestors as _anc
-
-        for a_ in _anc(c):
-            if isinstance(a_, (ast.DictComp, ast.ListComp, ast.GeneratorExp)):
-                gen_ = a_.generators[0]
-                if any(isinstance(t, ast.Compare) and isinstance(t.ops[0], ast.In) and norm(t.comparators[0]) == "duplicate_dim_names" for i_ in gen_.ifs for t in conjuncts(i_)):
-                    guarded = True
-                keyvar = gen_.target.id if isinstance(gen_.target, ast.Name) else (gen_.target.elts[0].id if isinstance(gen_.target, ast.Tuple) and isinstance(gen_.target.elts[0], ast.Name) else None)
-                lp_ = None
-                break
-        if isinstance(lp_, ast.For):
-            keyvar = lp_.target.id if isinstance(lp_.target, ast.Name) else (lp_.target.elts[0].id if isinstance(lp_.target, ast.Tuple) and isinstance(lp_.target.elts[0], ast.Name) else None)
-        ok = ok or (guarded and c.args and keyvar is not None and dotted(c.args[0]) == keyvar)
-    ctx.check(ok, f.qual + "#replace", "colliding names replaced by <model>.<argument> of the same parameter" if ok else "colliding short names are not disambiguated by _get_short_name_with_model(<same parameter>) under `in duplicate_dim_names`", where=f, node=repl_calls[0] if repl_calls else f.node)
     # the returned mapping must list the parameters in declaration order: the dask path pairs
     # its keys positionally with the value tuple (zip(dimension_names, params_tuple))
     g = ctx.cfg(f)
@@ -505,8 +475,45 @@ def r5_names_and_zips(ctx):
         nm = dotted(r.value)
         ok, why = order_follows(nm) if nm else (False, f"returns {norm(r.value)[:50]}")
         ctx.check(ok, f.qual + "#order", f"`{nm}` lists every parameter once, in declaration order" if ok else why + " (the dask path pairs names and values positionally)", where=f, node=r)
+    return rets
+
+
+def r5_names_and_zips(ctx):
+    """Every parameter gets a dimension name and duplicates are replaced by '<model>.<argument>'; every zip(...) on the observation path pairs sequences that are equal-length by construction (reviewed table), and the dask length check dominates its zip."""
+    f = ctx.func(f"{O}:_get_short_dimension_names_new")
+    tp = f.params[0]
+    dd = local_defs(f, "duplicate_dim_names")
+    ok = False
+    if len(dd) == 1 and isinstance(dd[0][1], ast.ListComp):
+        lc = dd[0][1]
+        ifs = [norm(i) for i in lc.generators[0].ifs]
+        src = norm(expand(f, lc.generators[0].iter))
+        ok = len(ifs) == 1 and ifs[0].endswith("> 1") and "Counter(" in src and "potential_dim_names.values()" in src
+    ctx.check(ok, f.qual + "#duplicates", "duplicates = names used more than once" if ok else "duplicate detection changed", where=f, node=dd[0][0] if dd else f.node)
+    # replacement of colliding names: _get_short_name_with_model(<key>) under a membership test in the duplicates
+    repl_calls = [c for c in calls_in(f.node) if call_name(c) == "_get_short_name_with_model"]
+    ok = False
+    for c in repl_calls:
+        ts = enclosing_tests(c)
+        guarded = any(pol and isinstance(t, ast.Compare) and isinstance(t.ops[0], ast.In) and norm(t.comparators[0]) == "duplicate_dim_names" for t, pol in ts)
+        lp_ = enclosing_loop(c)
+        keyvar = None
+        from sa.index import ancestors as _anc
+
+        for a_ in _anc(c):
+            if isinstance(a_, (ast.DictComp, ast.ListComp, ast.GeneratorExp)):
+                gen_ = a_.generators[0]
+                if any(isinstance(t, ast.Compare) and isinstance(t.ops[0], ast.In) and norm(t.comparators[0]) == "duplicate_dim_names" for i_ in gen_.ifs for t in conjuncts(i_)):
+                    guarded = True
+                keyvar = gen_.target.id if isinstance(gen_.target, ast.Name) else (gen_.target.elts[0].id if isinstance(gen_.target, ast.Tuple) and isinstance(gen_.target.elts[0], ast.Name) else None)
+                lp_ = None
+                break
+        if isinstance(lp_, ast.For):
+            keyvar = lp_.target.id if isinstance(lp_.target, ast.Name) else (lp_.target.elts[0].id if isinstance(lp_.target, ast.Tuple) and isinstance(lp_.target.elts[0], ast.Name) else None)
+        ok = ok or (guarded and c.args and keyvar is not None and dotted(c.args[0]) == keyvar)
+    ctx.check(ok, f.qual + "#replace", "colliding names replaced by <model>.<argument> of the same parameter" if ok else "colliding short names are not disambiguated by _get_short_name_with_model(<same parameter>) under `in duplicate_dim_names`", where=f, node=repl_calls[0] if repl_calls else f.node)
+    rets = dim_names_order(ctx, f)
     # when duplicates exist the disambiguated mapping is what is returned
-    dis = [r for r in rets if nm and any(contains(enclosing_loop(c) or c, c) and True for c in repl_calls)]
     names_with_repl = set()
     for c in repl_calls:
         scope = enclosing_loop(c) or enclosing_stmt(c)
